@@ -162,8 +162,8 @@ def run(ctx):
         ctx.broken.append("macro table: kfl's table differs from Dissector.Macros() of the extensions")
     names = [n for n, _ in real]
     quick = ctx.tier == "quick"
-    texts = K.gen_c17(ctx, names, 1000 if quick else 40000, dict(real))
-    reps, shuffles = (4, 7) if quick else (50, 30)
+    texts = K.gen_c17(ctx, names, 1000 if quick else 15000, dict(real))
+    reps, shuffles = (4, 7) if quick else (6, 15)
     replay_known(ctx, real)
     check_table(ctx, texts, real, "real", coq_ok, reps, shuffles)
     ext = K.extended_table(real)
@@ -171,7 +171,7 @@ def run(ctx):
     texts2 = [(s, q) for s, q in K.gen_c17(ctx, ext_names, 300 if quick else 5000, dict(ext)) if s != "gram"]
     if quick:
         texts2 = ctx.rng.sample(texts2, 500)
-    check_table(ctx, texts2, ext, "extended", coq_ok, 3 if quick else 30, 5 if quick else 20)
+    check_table(ctx, texts2, ext, "extended", coq_ok, 3 if quick else 6, 5 if quick else 15)
     ctx.trusted += [
         "translator vh-translate/macros.go (Dissector.Macros() of every registered extension -> gen/Macros.v)",
         "modelled, not verified: regexp2 (the one pattern family is modelled as a scanner, compared with the real ExpandMacros on every generated text); "
